@@ -165,6 +165,16 @@ def process(entry, mode, arg, stefc, env, tier_budget):
                 out.append("PROP-FAIL C10 %s [deliberate trigger %s: %s] %s" % (entry["expect"], eid, entry["why"], text))
             else:
                 fail("init-never-terminates", text)
+        elif re.search(r"^panic: |^fatal error: ", err, re.M) and re.search(r"^\S*/gen/\w+\.", err, re.M):
+            # an unrecovered Go panic whose stack passes through the GENERATED package (package
+            # initialisation, or a goroutine the driver cannot recover): the schema itself is the
+            # failing input, not a broken tie.
+            m = re.search(r"^(\S*/gen/\w+\.\S+?)\(", err, re.M)
+            site = m.group(1).split("/")[-1] if m else "?"
+            phase = "at package initialisation" if re.search(r"\.init\.\d+\(\)|\.init\(\)", err) else "while the driver ran"
+            out.append(txt)
+            fail("generated-package-panics", "schema %s: the generated package panicked %s in %s: %s ;; schema: %s" % (
+                eid, phase, site, one_line(err)[:300], schema_txt))
         else:
             out.append(txt)
             return "\n".join(out) + "\n", "driver of %s crashed (exit %d): %s" % (eid, p.returncode, err[-1500:])
